@@ -8,6 +8,9 @@ import (
 	"sort"
 	"strconv"
 	"strings"
+	"sync"
+	"sync/atomic"
+	"syscall"
 	"time"
 
 	"github.com/gopacket/gopacket"
@@ -139,8 +142,107 @@ type c09ost struct {
 	hasPrev  bool
 }
 
+// Watchdog: the code under test may spin (a corrupted page list).  Every case runs in its own
+// goroutine with a heartbeat per op.  An op is declared stuck when it has made no progress for
+// c09SpinWall of wall time while the process burnt at least c09SpinCPU of CPU in that window (a
+// spinning loop; an op of a case takes well under a millisecond, a goroutine that is merely starved
+// on a loaded machine burns nothing), or after c09OpDeadline of wall time in any case, or when the
+// case exceeds c09CaseDeadline.  The case is then recorded as stuck (observation ev=stuck, oracle
+// clause C09:hang with the step) and its goroutine is abandoned.  After c09MaxStuck stuck cases the
+// remaining cases are not run (observation skipped=too-many-hangs), so abandoned spinning
+// goroutines cannot eat the machine and the outputs are still written.
+const (
+	c09SpinWall     = 300 * time.Millisecond
+	c09SpinCPU      = 250 * time.Millisecond
+	c09OpDeadline   = 5 * time.Second
+	c09CaseDeadline = 20 * time.Second
+	c09MaxStuck     = 3
+)
+
+var c09stuckCases int32
+
+type c09guard struct {
+	mu        sync.Mutex
+	res       Result
+	beat      int64 // unix nanos of the start of the current op
+	beatCPU   int64 // process CPU nanos at that moment
+	step      int
+	opname    string
+	abandoned bool
+}
+
 func (c09) Run(c Case) Result {
+	if atomic.LoadInt32(&c09stuckCases) >= c09MaxStuck {
+		return Result{Obs: []string{"skipped=too-many-hangs"}}
+	}
+	g := &c09guard{}
+	atomic.StoreInt64(&g.beatCPU, c09cpu())
+	atomic.StoreInt64(&g.beat, time.Now().UnixNano())
+	done := make(chan struct{})
+	go func() {
+		defer close(done)
+		defer func() {
+			if r := recover(); r != nil {
+				g.mu.Lock()
+				if !g.abandoned {
+					g.res.Obs = append(g.res.Obs, fmt.Sprintf("harness-panic=%q", fmt.Sprint(r)))
+					g.res.Oracle = append(g.res.Oracle, fmt.Sprintf("harness-panic\t%v", r))
+				}
+				g.mu.Unlock()
+			}
+		}()
+		c09run(c, g)
+	}()
+	start := time.Now()
+	tick := time.NewTicker(20 * time.Millisecond)
+	defer tick.Stop()
+	for {
+		select {
+		case <-done:
+			g.mu.Lock()
+			defer g.mu.Unlock()
+			return g.res
+		case <-tick.C:
+			idle := time.Since(time.Unix(0, atomic.LoadInt64(&g.beat)))
+			// abandoned spinners of earlier cases burn CPU too: ask for more than their share
+			spin := idle > c09SpinWall &&
+				time.Duration(c09cpu()-atomic.LoadInt64(&g.beatCPU)) > c09SpinCPU+time.Duration(atomic.LoadInt32(&c09stuckCases))*idle
+			if spin || idle > c09OpDeadline || time.Since(start) > c09CaseDeadline {
+				g.mu.Lock()
+				g.abandoned = true
+				res := Result{Obs: append([]string(nil), g.res.Obs...), Tags: append([]string(nil), g.res.Tags...),
+					Oracle: append([]string(nil), g.res.Oracle...)}
+				res.Obs = append(res.Obs, "ev=stuck;used=-")
+				res.Oracle = append(res.Oracle, fmt.Sprintf("C09:hang\tstep %d op %s made no progress for %v (case abandoned)", g.step, g.opname, idle.Round(10*time.Millisecond)))
+				g.mu.Unlock()
+				atomic.AddInt32(&c09stuckCases, 1)
+				return res
+			}
+		}
+	}
+}
+
+// CPU time (user+system) of the process, in nanoseconds
+func c09cpu() int64 {
+	var ru syscall.Rusage
+	if syscall.Getrusage(syscall.RUSAGE_SELF, &ru) != nil {
+		return 0
+	}
+	return ru.Utime.Nano() + ru.Stime.Nano()
+}
+
+// c09run executes the case; results are published step by step under g.mu
+func c09run(c Case, g *c09guard) {
 	var res Result
+	publish := func() {
+		g.mu.Lock()
+		if !g.abandoned {
+			g.res = Result{Obs: append([]string(nil), res.Obs...), Tags: append([]string(nil), res.Tags...),
+				Oracle: append([]string(nil), res.Oracle...)}
+		}
+		g.mu.Unlock()
+	}
+	defer publish()
 	w := &c09world{}
 	pool := reassembly.NewStreamPool(w)
 	asm := reassembly.NewAssembler(pool)
@@ -163,7 +265,20 @@ func (c09) Run(c Case) Result {
 	limits := false
 	sawLow, sawHigh := false, false
 	for step, op := range c.Ops {
+		publish()
+		g.mu.Lock()
+		ab := g.abandoned
+		g.step = step
+		g.mu.Unlock()
+		if ab {
+			return
+		}
 		name, arg, _ := strings.Cut(op, ":")
+		g.mu.Lock()
+		g.opname = name
+		g.mu.Unlock()
+		atomic.StoreInt64(&g.beatCPU, c09cpu())
+		atomic.StoreInt64(&g.beat, time.Now().UnixNano())
 		args := strings.Split(arg, ",")
 		ai := func(i int) int64 {
 			if i >= len(args) {
@@ -379,7 +494,6 @@ func (c09) Run(c Case) Result {
 	for t := range tags {
 		res.Tags = append(res.Tags, t)
 	}
-	return res
 }
 
 func c09max(a, b int) int {
